@@ -75,6 +75,17 @@ class Sites(ast.NodeVisitor):
         elif isinstance(node.value, (int, float)) and not isinstance(node.value, bool):
             self.sites.append(("num", node))
 
+    def visit_Call(self, node):
+        f = node.func
+        if isinstance(f, ast.Attribute) and f.attr == "copy" and not node.args:
+            self.sites.append(("uncopy", node))          # x.copy() -> x
+        elif isinstance(f, (ast.Attribute, ast.Name)) and getattr(f, "attr", getattr(f, "id", "")) in ("deepcopy", "copy") and len(node.args) == 1:
+            self.sites.append(("uncopy", node))          # copy.copy(x) / copy.deepcopy(x) -> x
+        if len(node.args) >= 2 and not any(isinstance(a, ast.Starred) for a in node.args[:2]) \
+                and ast.dump(node.args[0]) != ast.dump(node.args[1]):
+            self.sites.append(("argswap", node))         # f(a, b, ...) -> f(b, a, ...)
+        self.generic_visit(node)
+
     def visit_Attribute(self, node):
         if node.attr in NAMES:
             self.sites.append(("name", node))
@@ -84,6 +95,16 @@ class Sites(ast.NodeVisitor):
         if isinstance(node.value, ast.Constant) and isinstance(node.value.value, str):
             return   # docstring
         self.generic_visit(node)
+
+
+class _Replace(ast.NodeTransformer):
+    def __init__(self, target, repl):
+        self.target, self.repl = target, repl
+
+    def visit(self, node):
+        if node is self.target:
+            return self.repl
+        return super().visit(node)
 
 
 def mutate(src: str, k: int) -> tuple[str, str] | None:
@@ -109,10 +130,18 @@ def mutate(src: str, k: int) -> tuple[str, str] | None:
         old = node.value
         node.value = (old + 1) if isinstance(old, int) else old * 1.01 if old != 0 else 0.01
         what = f"{old!r}->{node.value!r}"
+    elif kind == "uncopy":
+        inner = node.func.value if (isinstance(node.func, ast.Attribute) and not node.args) else node.args[0]
+        what = "copy removed"
+        tree = _Replace(node, inner).visit(tree)
+    elif kind == "argswap":
+        node.args[0], node.args[1] = node.args[1], node.args[0]
+        what = "first two arguments swapped"
     else:
         old = node.attr
         node.attr = NAMES[old]
         what = f"{old}->{node.attr}"
+    ast.fix_missing_locations(tree)
     return ast.unparse(tree) + "\n", f"line {line}: {kind} {what}"
 
 
@@ -182,11 +211,14 @@ def main():
     only = sys.argv[3:]
     rng = random.Random(seed)
     jobs = []
+    kinds = set(filter(None, os.environ.get("MUT_KINDS", "").split(",")))
     for rel in FILES:
         if only and not any(o in rel for o in only):
             continue
-        total = nsites((REPO / rel).read_text())
-        for k in rng.sample(range(total), min(n, total)):
+        sv = Sites()
+        sv.visit(ast.parse((REPO / rel).read_text()))
+        idx = [i for i, (kd, _n) in enumerate(sv.sites) if not kinds or kd in kinds]
+        for k in rng.sample(idx, min(n, len(idx))):
             jobs.append((rel, k, f"{seed}-{len(jobs)}"))
     print(f"{len(jobs)} mutants", flush=True)
     out = []
